@@ -119,6 +119,33 @@ var harnessIntrinsics = map[string]intrinsic{
 		b, _ := in.userState["stdout"].([]*sym.Term)
 		return mkStr(b)
 	},
+	// vchoose(n): a value in 0..n-1, forking n ways without solver queries
+	"vchoose": func(in *Interp, _ *ssa.Function, args []Value) Value {
+		n := in.concreteInt(args[0], "vchoose")
+		if n <= 0 {
+			panic(pathEnd{"assume_false", "vchoose(0)"})
+		}
+		if in.P.Cfg.Script != nil {
+			t := in.fresh("int", 64)
+			v := t.C % uint64(n)
+			return sym.BV(v, 64)
+		}
+		idx := len(in.taken)
+		var c int64
+		if idx < len(in.prefix) {
+			c = in.prefix[idx]
+		} else {
+			in.decisions++
+			for o := int64(1); o < n; o++ {
+				alt := append(append(make([]int64, 0, idx+1), in.taken...), o)
+				in.pending = append(in.pending, alt)
+			}
+		}
+		in.taken = append(in.taken, c)
+		t := sym.BV(uint64(c), 64)
+		in.nondets = append(in.nondets, nondetRec{"int", t})
+		return t
+	},
 	// vconcrete(x) forks over the feasible values of x
 	"vconcrete": func(in *Interp, _ *ssa.Function, args []Value) Value {
 		return in.concretize(args[0].(*sym.Term), 256)
@@ -323,6 +350,9 @@ func init() {
 		}
 		return Iface{}
 	})
+	for _, n := range []string{"BoolVar", "StringVar", "IntVar", "Int64Var", "UintVar", "Uint64Var", "Float64Var", "DurationVar", "Var", "Parse", "TextVar", "Func", "BoolFunc"} {
+		reg("flag."+n, nop)
+	}
 	reg("runtime.KeepAlive", nop)
 	reg("runtime.SetFinalizer", nop)
 	reg("runtime.GC", nop)
